@@ -17,7 +17,11 @@ func init() {
 	})
 }
 
-func runC11(p *Prog, r *Report, tier string) { checkFraming(p, r) }
+func runC11(p *Prog, r *Report, tier string) {
+	checkFraming(p, r)
+	// connections share the template store: a malformed template on one connection must not cost another its templates
+	checkDomainPrune(p, r, "R-OWNER.domain-prune")
+}
 
 // checkFraming holds C11's rules; C01 imports them (fidelity over TCP/TLS needs exact framing).
 func checkFraming(p *Prog, r *Report) {
@@ -259,6 +263,44 @@ func checkFraming(p *Prog, r *Report) {
 					}
 				}
 			}
+			// the length function may refuse lengths that cannot be a message (below the 16-byte header + 4-byte set header),
+			// but nothing else: on every error exit that depends on the decoded length, every refused length is < 20
+			refuses := ""
+			lenSym := ""
+			wl := &absWalker{MaxPaths: 2048}
+			wl.OnInstr = func(st *absState, in ssa.Instruction) {
+				if u, ok := in.(*ssa.UnOp); ok && u.Op == token.MUL {
+					if d, i := wireVar(p, u); d != nil && i == 0 {
+						lenSym = st.key(u)
+					}
+				}
+				if c2, ok := in.(*ssa.Call); ok && calleeName(&c2.Call) == "(encoding/binary.bigEndian).Uint16" {
+					lenSym = st.key(c2)
+				}
+			}
+			wl.OnEnd = func(st *absState, last ssa.Instruction) {
+				rt, ok := last.(*ssa.Return)
+				if !ok || len(rt.Results) == 0 || lenSym == "" {
+					return
+				}
+				isNil, known := st.nilness(rt.Results[len(rt.Results)-1])
+				if !known || isNil {
+					return
+				}
+				lo, hi := st.bounds(lenSym)
+				if hi < absInf && hi > 19 {
+					refuses = fmt.Sprintf("lengths up to %d are refused", hi)
+				}
+				if lo > -absInf && lo > 0 && hi == absInf {
+					refuses = fmt.Sprintf("lengths from %d are refused", lo)
+				}
+			}
+			if len(lenFn.Blocks) > 0 {
+				wl.walk(newAbsState(), lenFn.Blocks[0], 0)
+			}
+			r.Check(refuses == "", "R-FRAME.length-accepts", fnKey(lenFn)+": every possible message length is accepted", p.pos(lenFn.Pos()),
+				"no error exit depends on the decoded length, except for lengths below 20 (header + set header)",
+				refuses+": a decodable message of that length (e.g. exactly 20: a header and an empty set) makes the reader report an error and close the connection, losing it and everything after it", true)
 			r.Check(peekOK && offOK && be && consumes == "", "R-FRAME.length", fnKey(lenFn)+": message length from the header", p.pos(lenFn.Pos()),
 				"Peek(4) (non-consuming), big-endian uint16 at offset 2, nothing else touches the reader",
 				fmt.Sprintf("the length function is not 'Peek(4), big-endian uint16 at offset 2, no consumption' (peek4=%v offset2=%v bigEndianU16=%v consuming call=%q): messages are framed at the wrong boundary", peekOK, offOK, be, consumes), true)
